@@ -366,6 +366,7 @@ def default_profile():
         p_big=0.01,
         p_huge=0.004,
         p_interleaved_redirect=0.3,
+        p_unknown_name=0.0,  # an adapter literally named 'unknown' (legal with --discard-untrimmed/--untrimmed-output)
         p_comments_two_files=0.0,  # only the check that owns KF-C06-3 generates it
         p_mixed_pair=0.0,  # -o x.fastq -p y.fasta: only the check that owns KF-C06-2 generates it
         upper_only=False,  # reads over ACGTN only
@@ -666,7 +667,7 @@ def gen_case(rng, profile=None):
                 outs = [g for g in outs if g[0] != flag]
 
     names1 = [a["name"] for a in ad1 + decoys]
-    if demux == "normal" and names1 and rng.random() < 0.12 and (
+    if demux == "normal" and names1 and rng.random() < P["p_unknown_name"] and (
         untrimmed_mode == "discard_untrimmed" or (untrimmed_mode == "untrimmed_output" and not paired)
     ):
         # an adapter may legally be called 'unknown' when the default unknown file is not in use
